@@ -151,8 +151,17 @@ def source_scan(files):
     return bad
 
 
+def _driver_limits():
+    # safety net: a model that over-allocates fails fast (reported as a crashed driver) instead of
+    # driving the machine into the kernel's OOM killer
+    import resource
+    cap = int(os.environ.get("VERIF_DRIVER_MEM_GB", "16")) << 30
+    resource.setrlimit(resource.RLIMIT_AS, (cap, cap))
+
+
 def run_driver(req_lines):
-    p = subprocess.run([DRIVER], input="\n".join(req_lines) + "\n", capture_output=True, text=True)
+    p = subprocess.run([DRIVER], input="\n".join(req_lines) + "\n", capture_output=True, text=True,
+                       preexec_fn=_driver_limits)
     if p.returncode != 0:
         raise RuntimeError(f"driver crashed rc={p.returncode}: {p.stderr[-500:]}")
     out = p.stdout.split("\n")
